@@ -100,6 +100,7 @@ package p2p
 //@   ensures exactly_once_to_matching: result == nil && msg != nil && msg.Header != nil && !d.IsHandled(msg) ==> (forall sub Subscriber :: sel(delivered, sub) == sel(old(delivered), sub) + (in(d.mc[typ], sub) && sub.Match(msg) ? 1 : 0))
 //@   ensures repeats_and_failures_deliver_nothing: result != nil || d.IsHandled(msg) ==> delivered == old(delivered)
 //@   ensures marked_handled: result == nil && !d.IsHandled(msg) ==> lastMasked == msg
+//@   ensures undelivered_not_marked: result != nil || d.IsHandled(msg) ==> lastMasked == old(lastMasked)
 //@   loop 1 invariant delivered_so_far: forall sub Subscriber :: sel(delivered, sub) == sel(old(delivered), sub) + (in($visited, sub) && sub.Match(msg) ? 1 : 0)
 //@   loop 1 invariant visited_registered: forall sub Subscriber :: in($visited, sub) ==> in(d.mc[typ], sub)
 //@   loop 1 invariant locked: sel(rwHeld, d.mu) == 1 && msg != nil && msg.Header != nil && !d.IsHandled(msg)
